@@ -311,24 +311,30 @@ async fn run_script(connect: bool, steps: Vec<String>) -> String {
                 out.push(res(node.demonitor(&a, &b, &refs[k]).await));
             }
             "rpc" => {
-                let long = t.next() == "L";
+                // S: raw, short timeout; L: raw, long timeout; X: rpc_call_with_timeout (the {rex, Result} wrapper removed);
+                // Y: rpc_call; Z: rpc_call_raw (both with the library's default timeout)
+                let variant = t.next().to_string();
                 let module = String::from_utf8(unhex(t.next())).unwrap();
                 let function = String::from_utf8(unhex(t.next())).unwrap();
                 let n: usize = t.num();
                 let args: Vec<OwnedTerm> = (0..n).map(|_| read_term(&mut t)).collect();
                 let node2 = node.clone();
                 let remote2 = if remote.is_empty() { "nobody@127.0.0.1".to_string() } else { remote.clone() };
-                let timeout = if long { Duration::from_secs(30) } else { Duration::from_millis(30) };
+                let timeout = if variant == "S" { Duration::from_millis(30) } else { Duration::from_secs(30) };
                 let h: Call = tokio::spawn(async move {
-                    node2
-                        .rpc_call_raw_with_timeout(&remote2, &module, &function, args, timeout)
-                        .await
-                        .map_err(|e| match e {
-                            edp_node::Error::RpcTimeout(_) => "timeout".to_string(),
-                            edp_node::Error::NodeNotConnected(_) => "notconnected".to_string(),
-                            edp_node::Error::RpcCancelled => "cancelled".to_string(),
-                            _ => "sendfailed".to_string(),
-                        })
+                    let r = match variant.as_str() {
+                        "X" => node2.rpc_call_with_timeout(&remote2, &module, &function, args, timeout).await,
+                        "Y" => node2.rpc_call(&remote2, &module, &function, args).await,
+                        "Z" => node2.rpc_call_raw(&remote2, &module, &function, args).await,
+                        _ => node2.rpc_call_raw_with_timeout(&remote2, &module, &function, args, timeout).await,
+                    };
+                    r.map_err(|e| match e {
+                        edp_node::Error::RpcTimeout(_) => "timeout".to_string(),
+                        edp_node::Error::NodeNotConnected(_) => "notconnected".to_string(),
+                        edp_node::Error::RpcCancelled => "cancelled".to_string(),
+                        edp_node::Error::TermConversion(_) => "badreply".to_string(),
+                        _ => "sendfailed".to_string(),
+                    })
                 });
                 settle().await;
                 out.push(if h.is_finished() { "err".to_string() } else { "ok".to_string() });
